@@ -1,37 +1,16 @@
 //! C08 — supports() is exactly the documented envelope; validate/new/reset agree.
+use crate::k;
+use crate::kcover;
+use crate::codec::{envelope, validate_spec};
 use crate::model::NullEngine;
 use reed_solomon_simd::engine::{DefaultEngine, NoSimd};
 use reed_solomon_simd::rate::*;
 use reed_solomon_simd::{Error, ReedSolomonDecoder, ReedSolomonEncoder};
 
-/// README table, written independently of the code: both counts >= 1 and for
-/// some n in 0..=16 one count <= 2^n while the other <= 65536 - 2^n.
-/// `side`: 0 = either side may be the power-of-two-bounded one (default rate),
-/// 1 = recovery_count is (high rate), 2 = original_count is (low rate).
-pub fn envelope(o: usize, r: usize, side: u8) -> bool {
-    if o < 1 || r < 1 {
-        return false;
-    }
-    let mut ok = false;
-    let mut n = 0u32;
-    while n <= 16 {
-        let p = 1usize << n;
-        let q = 65536usize - p;
-        if side != 2 && r <= p && o <= q {
-            ok = true;
-        }
-        if side != 1 && o <= p && r <= q {
-            ok = true;
-        }
-        n += 1;
-    }
-    ok
-}
-
-#[kani::proof]
-#[kani::unwind(18)]
-fn supports_default() {
-    let (o, r): (usize, usize) = (kani::any(), kani::any());
+#[cfg_attr(kani, kani::proof)]
+#[cfg_attr(kani, kani::unwind(18))]
+pub fn supports_default() {
+    let (o, r): (usize, usize) = (k::any(), k::any());
     let spec = envelope(o, r, 0);
     assert_eq!(DefaultRate::<NoSimd>::supports(o, r), spec);
     assert_eq!(DefaultRate::<NullEngine>::supports(o, r), spec);
@@ -39,46 +18,46 @@ fn supports_default() {
     assert_eq!(DefaultRateDecoder::<NoSimd>::supports(o, r), spec);
     assert_eq!(ReedSolomonEncoder::supports(o, r), spec);
     assert_eq!(ReedSolomonDecoder::supports(o, r), spec);
-    kani::cover!(spec && o > 32768);
-    kani::cover!(spec && r > 32768);
-    kani::cover!(!spec && o >= 1 && r >= 1 && o < 65536 && r < 65536);
-    kani::cover!(o == usize::MAX);
+    kcover!(spec && o > 32768);
+    kcover!(spec && r > 32768);
+    kcover!(!spec && o >= 1 && r >= 1 && o < 65536 && r < 65536);
+    kcover!(o == usize::MAX);
 }
 
-#[kani::proof]
-#[kani::unwind(18)]
-fn supports_high() {
-    let (o, r): (usize, usize) = (kani::any(), kani::any());
+#[cfg_attr(kani, kani::proof)]
+#[cfg_attr(kani, kani::unwind(18))]
+pub fn supports_high() {
+    let (o, r): (usize, usize) = (k::any(), k::any());
     let spec = envelope(o, r, 1);
     assert_eq!(HighRate::<NoSimd>::supports(o, r), spec);
     assert_eq!(HighRateEncoder::<NoSimd>::supports(o, r), spec);
     assert_eq!(HighRateDecoder::<NoSimd>::supports(o, r), spec);
-    kani::cover!(spec && o > 32768);
-    kani::cover!(spec && r == 32768);
-    kani::cover!(!spec && o >= 1 && r >= 1 && o < 65536 && r < 65536);
-    kani::cover!(o == usize::MAX);
+    kcover!(spec && o > 32768);
+    kcover!(spec && r == 32768);
+    kcover!(!spec && o >= 1 && r >= 1 && o < 65536 && r < 65536);
+    kcover!(o == usize::MAX);
 }
 
-#[kani::proof]
-#[kani::unwind(18)]
-fn supports_low() {
-    let (o, r): (usize, usize) = (kani::any(), kani::any());
+#[cfg_attr(kani, kani::proof)]
+#[cfg_attr(kani, kani::unwind(18))]
+pub fn supports_low() {
+    let (o, r): (usize, usize) = (k::any(), k::any());
     let spec = envelope(o, r, 2);
     assert_eq!(LowRate::<NoSimd>::supports(o, r), spec);
     assert_eq!(LowRateEncoder::<NoSimd>::supports(o, r), spec);
     assert_eq!(LowRateDecoder::<NoSimd>::supports(o, r), spec);
-    kani::cover!(spec && r > 32768);
-    kani::cover!(spec && o == 32768);
-    kani::cover!(!spec && o >= 1 && r >= 1 && o < 65536 && r < 65536);
-    kani::cover!(o == usize::MAX);
+    kcover!(spec && r > 32768);
+    kcover!(spec && o == 32768);
+    kcover!(!spec && o >= 1 && r >= 1 && o < 65536 && r < 65536);
+    kcover!(o == usize::MAX);
 }
 
 /// default envelope = union of the dedicated ones, and the rate rule always
 /// names a dedicated codec that supports the pair.
-#[kani::proof]
-#[kani::unwind(18)]
-fn supports_default_is_union_and_rule_is_supported() {
-    let (o, r): (usize, usize) = (kani::any(), kani::any());
+#[cfg_attr(kani, kani::proof)]
+#[cfg_attr(kani, kani::unwind(18))]
+pub fn supports_default_is_union_and_rule_is_supported() {
+    let (o, r): (usize, usize) = (k::any(), k::any());
     let d = DefaultRate::<NoSimd>::supports(o, r);
     let h = HighRate::<NoSimd>::supports(o, r);
     let l = LowRate::<NoSimd>::supports(o, r);
@@ -91,25 +70,15 @@ fn supports_default_is_union_and_rule_is_supported() {
             assert_eq!(e, Error::UnsupportedShardCount { original_count: o, recovery_count: r });
         }
     }
-    kani::cover!(h && !l);
-    kani::cover!(l && !h);
-    kani::cover!(h && l);
+    kcover!(h && !l);
+    kcover!(l && !h);
+    kcover!(h && l);
 }
 
-fn validate_spec(o: usize, r: usize, s: usize, side: u8) -> Result<(), Error> {
-    if !envelope(o, r, side) {
-        Err(Error::UnsupportedShardCount { original_count: o, recovery_count: r })
-    } else if s == 0 || s % 2 == 1 {
-        Err(Error::InvalidShardSize { shard_bytes: s })
-    } else {
-        Ok(())
-    }
-}
-
-#[kani::proof]
-#[kani::unwind(18)]
-fn validate_all() {
-    let (o, r, s): (usize, usize, usize) = (kani::any(), kani::any(), kani::any());
+#[cfg_attr(kani, kani::proof)]
+#[cfg_attr(kani, kani::unwind(18))]
+pub fn validate_all() {
+    let (o, r, s): (usize, usize, usize) = (k::any(), k::any(), k::any());
     let d = validate_spec(o, r, s, 0);
     assert_eq!(DefaultRate::<NoSimd>::validate(o, r, s), d);
     assert_eq!(DefaultRateEncoder::<NoSimd>::validate(o, r, s), d);
@@ -122,19 +91,19 @@ fn validate_all() {
     assert_eq!(LowRate::<NoSimd>::validate(o, r, s), l);
     assert_eq!(LowRateEncoder::<NoSimd>::validate(o, r, s), l);
     assert_eq!(LowRateDecoder::<NoSimd>::validate(o, r, s), l);
-    kani::cover!(d.is_ok() && s > 1 << 40);
-    kani::cover!(matches!(d, Err(Error::InvalidShardSize { .. })));
-    kani::cover!(matches!(h, Err(Error::UnsupportedShardCount { .. })) && l.is_ok());
+    kcover!(d.is_ok() && s > 1 << 40);
+    kcover!(matches!(d, Err(Error::InvalidShardSize { .. })));
+    kcover!(matches!(h, Err(Error::UnsupportedShardCount { .. })) && l.is_ok());
 }
 
 /// work-space arithmetic for EVERY supported pair (full 64-bit width):
 /// what `new` allocates is enough for every position encode/decode touch and
 /// every skew-table index stays in range.
-#[kani::proof]
-#[kani::unwind(18)]
-fn work_arith_high() {
-    let (o, r): (usize, usize) = (kani::any(), kani::any());
-    kani::assume(HighRate::<NullEngine>::supports(o, r));
+#[cfg_attr(kani, kani::proof)]
+#[cfg_attr(kani, kani::unwind(18))]
+pub fn work_arith_high() {
+    let (o, r): (usize, usize) = (k::any(), k::any());
+    k::assume(HighRate::<NullEngine>::supports(o, r));
     let chunk = r.next_power_of_two();
     let ew = HighRateEncoder::<NullEngine>::verif_work_count(o, r);
     let dw = HighRateDecoder::<NullEngine>::verif_work_count(o, r);
@@ -146,15 +115,15 @@ fn work_arith_high() {
     // decoder: recovery at 0.., originals at chunk.., fft over the whole work
     assert!(dw.is_power_of_two() && dw <= 65536);
     assert!(chunk + o <= dw && r <= chunk);
-    kani::cover!(ew + chunk == 65536);
-    kani::cover!(dw == 65536 && o == 61440);
+    kcover!(ew + chunk == 65536);
+    kcover!(dw == 65536 && o == 61440);
 }
 
-#[kani::proof]
-#[kani::unwind(18)]
-fn work_arith_low() {
-    let (o, r): (usize, usize) = (kani::any(), kani::any());
-    kani::assume(LowRate::<NullEngine>::supports(o, r));
+#[cfg_attr(kani, kani::proof)]
+#[cfg_attr(kani, kani::unwind(18))]
+pub fn work_arith_low() {
+    let (o, r): (usize, usize) = (k::any(), k::any());
+    k::assume(LowRate::<NullEngine>::supports(o, r));
     let chunk = o.next_power_of_two();
     let ew = LowRateEncoder::<NullEngine>::verif_work_count(o, r);
     let dw = LowRateDecoder::<NullEngine>::verif_work_count(o, r);
@@ -165,6 +134,6 @@ fn work_arith_low() {
     assert!(ew + chunk <= 65536);
     assert!(dw.is_power_of_two() && dw <= 65536);
     assert!(chunk + r <= dw);
-    kani::cover!(ew + chunk == 65536);
-    kani::cover!(dw == 65536 && r == 61440);
+    kcover!(ew + chunk == 65536);
+    kcover!(dw == 65536 && r == 61440);
 }
